@@ -107,3 +107,39 @@ func TestYieldedLifecycle(t *testing.T) {
 				{Point: "group.beforeStore", Sleep: 3 * time.Millisecond, Prob: 0.2}, {Point: "flush.beforeDelete", Sleep: 400 * time.Millisecond, Prob: 0.3}}
 		}}, ck)
 }
+
+// staleUpdateIntoSharedGroup: three alerts share a group; one of them is re-submitted in pairs 1 ms
+// apart while the ingestion workers are held for random 0-6 ms, so that the older submission of a pair
+// reaches the group after the newer one. A refused stale update must leave the group and its other
+// members alone.
+func staleUpdateIntoSharedGroup(r *rand.Rand) *scen.Scenario {
+	gw, gi, ri := time.Second, gen.Pick(r, []time.Duration{20 * time.Second, time.Minute}), time.Hour
+	gb := []string{"alertname"}
+	cfg := &scen.Config{ResolveTimeout: 5 * time.Minute,
+		Route:     &model.RouteSpec{Receiver: "r0", GroupBy: &gb, GroupWait: &gw, GroupInterval: &gi, RepeatInterval: &ri},
+		Receivers: []scen.Receiver{{Name: "r0", Integs: []scen.Integ{{SendResolved: true}}}}}
+	s := &scen.Scenario{Config: cfg, Duration: 15 * time.Minute,
+		Yields: []scen.YieldRule{{Point: "worker.recv", Sleep: 3 * time.Millisecond, Prob: 0.5}, {Point: "worker.recv", Sleep: 3 * time.Millisecond, Prob: 0.3}}}
+	far := 40 * time.Minute
+	mk := func(i int) model.Labels { return model.Labels{"alertname": "A", "instance": fmt.Sprint(i)} }
+	t0 := time.Duration(1+r.Intn(10))*time.Second + time.Duration(1+r.Intn(998))*time.Millisecond
+	s.Ops = append(s.Ops, scen.Op{At: t0, Kind: "alerts", Alerts: []scen.PostSpec{{Labels: mk(1), EndOff: &far}, {Labels: mk(2), EndOff: &far}, {Labels: mk(3), EndOff: &far}}})
+	v := 0
+	for at := t0 + 7*time.Second; at < s.Duration-time.Minute; at += time.Duration(13+r.Intn(30)) * time.Second {
+		v++
+		s.Ops = append(s.Ops, scen.Op{At: at, Kind: "alerts", Alerts: []scen.PostSpec{{Labels: mk(1), EndOff: &far, Ann: model.Labels{"v": fmt.Sprintf("%d.a", v)}}}})
+		s.Ops = append(s.Ops, scen.Op{At: at + time.Millisecond, Kind: "alerts", Alerts: []scen.PostSpec{{Labels: mk(1), EndOff: &far, Ann: model.Labels{"v": fmt.Sprintf("%d.b", v)}}}})
+		s.Ops = append(s.Ops, scen.Op{At: at + 500*time.Millisecond, Kind: "probe"})
+	}
+	return s
+}
+
+func TestStaleUpdateIntoSharedGroup(t *testing.T) {
+	sub := vf.Cur().Sub("stale-update-into-a-shared-group", fmt.Sprintf(rule, "targeted, with yield hooks: three alerts in one group; one is re-submitted in pairs 1 ms apart while ingestion workers are held 0-6 ms, so the older of a pair arrives last and is refused; the group must keep all its members (API probe half a second after every pair) and go on notifying them"), 10)
+	ck := map[string]sysrun.Checker{"group-map": oracle.GroupMapInvariants, "obligations": oracle.Obligations}
+	for k, v := range checkers {
+		ck[k] = v
+	}
+	sysrun.Run(t, "C06", sub, sysrun.Family{Name: "stale", Quick: 40, Thorough: 2000, Gen: staleUpdateIntoSharedGroup,
+		NonTrivial: func(c map[string]int64) bool { return c["members_required"] > 0 }}, ck)
+}
